@@ -125,7 +125,9 @@ def trace_files_stage(ctx, driver, prefix, nfiles, module="Trace_Balloon", cfg=N
     def validate(path):
         defs = path.replace(".ndjson", ".defs.ndjson")
         tag = "tv_" + os.path.basename(path).split(".")[0]
-        r = ctx.tlc(module, (cfg % {"trace": path, "defs": defs}).replace("SPECIFICATION Spec", "SPECIFICATION " + spec), tag, workers=1, timeout=ctx.pick(1500, 5400))
+        cfgtext = (cfg % {"trace": path, "defs": defs}).replace("SPECIFICATION Spec", "SPECIFICATION " + spec)
+        ctx.replay_info[os.path.basename(path)] = {"module": module, "cfg": cfg.replace("SPECIFICATION Spec", "SPECIFICATION " + spec)}
+        r = ctx.tlc(module, cfgtext, tag, workers=1, timeout=ctx.pick(1500, 5400))
         return path, r
     t1 = time.time()
     results = par_map(validate, files)
@@ -522,16 +524,26 @@ PLANS = {
 
 
 def replay(ctx, path):
-    """Re-validate the traces saved next to a replay.json and print the violated lines."""
+    """Re-validate the traces saved next to a replay.json with the specification they were validated
+    against and print the lines that violate the property."""
     d = os.path.dirname(os.path.abspath(path))
     info = json.load(open(path))
-    print(json.dumps(info, indent=1)[:4000])
+    print("property %s, tier %s, seed %s" % (info.get("property"), info.get("tier"), info.get("seed")))
+    for v in info.get("violations", [])[:20]:
+        print("  recorded:", v.get("what"), "@", v.get("where"))
     rc = 0
-    for f in sorted(glob.glob(os.path.join(d, "*_[0-9][0-9].ndjson"))):
+    for fn, ti in sorted(info.get("tlc", {}).items()):
+        f = os.path.join(d, fn)
+        if not os.path.exists(f):
+            continue
         defs = f.replace(".ndjson", ".defs.ndjson")
-        r = ctx.tlc("Trace_Balloon", BALLOON_CFG % {"trace": f, "defs": defs}, "replay", workers=1, timeout=3000)
-        for shadow, prop, line, what in parse_viol(r["out"]) or []:
-            if prop == ctx.pid or (shadow and ctx.pid == "C08"):
-                print("line %d: %s" % (line, what))
+        r = ctx.tlc(ti["module"], ti["cfg"] % {"trace": f, "defs": defs}, "replay", workers=1, timeout=5400)
+        for also, prop, line, what in parse_viol(r["out"]) or []:
+            if prop == ctx.pid or ctx.pid in also:
+                print("%s line %d: %s" % (fn, line, what))
                 rc = 1
+    for f in sorted(glob.glob(os.path.join(d, "crash_*.txt"))):
+        print("crash record:", f)
+        print(open(f).read()[:1500])
+        rc = 1
     return rc
